@@ -9,24 +9,24 @@ From Coq Require Import Lia.
 Open Scope N_scope.
 
 Inductive seg :=
-| SLit (h : bytes)            (* these bytes, as they are *)
-| SDyn (t : token).           (* html-escaped value of the Go expression [formatted_code t] *)
+| SLit (h : bytes)                        (* these bytes, as they are *)
+| SDyn (t : token)                        (* html-escaped value of the Go expression [formatted_code t] *)
+| SBlock (stmt : bytes) (body : list seg). (* the Go statement [stmt { body }]: body rendered when / as often as Go runs it *)
 
 (** the meaning of a segment list under a valuation of the Go expressions *)
+(** (blocks have no meaning without Go's semantics of the statement: they contribute nothing here) *)
 Definition eval_segs (rho : bytes -> bytes) (l : list seg) : bytes :=
-  List.concat (map (fun s => match s with SLit h => h | SDyn t => html_escape (rho (formatted_code t)) end) l).
+  List.concat (map (fun s => match s with SLit h => h | SDyn t => html_escape (rho (formatted_code t)) | SBlock _ _ => [] end) l).
 
-Section Seg.
-Variable ind : nat.     (* the indentation of the Go code of this template body *)
+(** [ind] is the indentation of the Go code at this point of the template body *)
+Definition Lo (ind : nat) : wlocal := mkWL ind true true false.     (* a string literal is open *)
+Definition Lc (ind : nat) : wlocal := mkWL ind false false false.   (* no literal is open *)
+Definition loc_of (ind : nat) (m : bool) : wlocal := if m then Lo ind else Lc ind.
 
-Definition Lo : wlocal := mkWL ind true true false.     (* a string literal is open *)
-Definition Lc : wlocal := mkWL ind false false false.   (* no literal is open *)
-Definition loc_of (m : bool) : wlocal := if m then Lo else Lc.
-
-Definition opener : bytes := tabs ind ++ write_string_open ++ lit """".
+Definition opener (ind : nat) : bytes := tabs ind ++ write_string_open ++ lit """".
 
 (** the code of one dynamic block, for the temporary [v] *)
-Definition dyn_code (v : bytes) (t : token) : bytes :=
+Definition dyn_code (ind : nat) (v : bytes) (t : token) : bytes :=
   tabs ind ++ lit "var " ++ v ++ lit " string" ++ [10] ++
   tabs ind ++ lit "if " ++ v ++ lit ", __err = goht.CaptureErrors(" ++
     lit "goht.EscapeString(" ++ formatted_code t ++ lit ")" ++ lit "); __err != nil { return }" ++ [10] ++
@@ -34,28 +34,40 @@ Definition dyn_code (v : bytes) (t : token) : bytes :=
 
 (** [denotes m m' code segs]: [code], starting with a literal open ([m]) or not and ending so ([m']), is a
     well-formed run of literal chunks and dynamic blocks that stands for [segs] *)
-Inductive denotes : bool -> bool -> bytes -> list seg -> Prop :=
-| d_nil m : denotes m m [] []
-| d_lit p h rest segs m' : reads_as p h -> denotes true m' rest segs -> denotes true m' (p ++ rest) (SLit h :: segs)
-| d_open rest segs m' : denotes true m' rest segs -> denotes false m' (opener ++ rest) segs
-| d_close rest segs m' : denotes false m' rest segs -> denotes true m' (close_text Lo ++ rest) segs
-| d_dyn v t rest segs m' : denotes false m' rest segs -> denotes false m' (dyn_code v t ++ rest) (SDyn t :: segs).
+Definition block_code (ind : nat) (stmt body_code : bytes) (mb : bool) : bytes :=
+  tabs ind ++ stmt ++ lit " {" ++ [10] ++ body_code ++ (if mb then close_text (Lo (S ind)) else []) ++ tabs ind ++ lit "}" ++ [10].
 
-Lemma denotes_app m1 m2 m3 c1 s1 c2 s2 : denotes m1 m2 c1 s1 -> denotes m2 m3 c2 s2 -> denotes m1 m3 (c1 ++ c2) (s1 ++ s2).
+Inductive denotes : nat -> bool -> bool -> bytes -> list seg -> Prop :=
+| d_nil ind m : denotes ind m m [] []
+| d_lit ind p h rest segs m' : reads_as p h -> denotes ind true m' rest segs -> denotes ind true m' (p ++ rest) (SLit h :: segs)
+| d_open ind rest segs m' : denotes ind true m' rest segs -> denotes ind false m' (opener ind ++ rest) segs
+| d_close ind rest segs m' : denotes ind false m' rest segs -> denotes ind true m' (close_text (Lo ind) ++ rest) segs
+| d_dyn ind v t rest segs m' : denotes ind false m' rest segs -> denotes ind false m' (dyn_code ind v t ++ rest) (SDyn t :: segs)
+| d_block ind stmt body_code body mb rest segs m' :
+    denotes (S ind) false mb body_code body -> denotes ind false m' rest segs ->
+    denotes ind false m' (block_code ind stmt body_code mb ++ rest) (SBlock stmt body :: segs).
+
+Lemma denotes_app ind m1 m2 m3 c1 s1 c2 s2 : denotes ind m1 m2 c1 s1 -> denotes ind m2 m3 c2 s2 -> denotes ind m1 m3 (c1 ++ c2) (s1 ++ s2).
 Proof.
-  induction 1 as [m|p h rest segs m' Hr _ IH|rest segs m' _ IH|rest segs m' _ IH|v t rest segs m' _ IH]; intro H2; cbn [app].
+  intro H1. revert m3 c2 s2.
+  induction H1 as [ind m|ind p h rest segs m' Hr _ IH|ind rest segs m' _ IH|ind rest segs m' _ IH|ind v t rest segs m' _ IH
+                  |ind stmt bc body mb rest segs m' Hb _ _ IH]; intros m3 c2 s2 H2; cbn [app].
   - exact H2.
   - rewrite <- app_assoc. apply d_lit; [exact Hr|apply IH; exact H2].
   - rewrite <- app_assoc. apply d_open. apply IH; exact H2.
   - rewrite <- app_assoc. apply d_close. apply IH; exact H2.
   - rewrite <- app_assoc. apply d_dyn. apply IH; exact H2.
+  - rewrite <- app_assoc. apply d_block; [exact Hb|apply IH; exact H2].
 Qed.
 
 (** writer states of the two modes *)
-Definition MS (m : bool) (st : est) : Prop := w_err (fst st) = None /\ snd st = loc_of m.
+Section Seg.
+Variable ind : nat.
+
+Definition MS (m : bool) (st : est) : Prop := w_err (fst st) = None /\ snd st = loc_of ind m.
 
 Definition Run (m : bool) (st : est) (m' : bool) (st' : est) (segs : list seg) : Prop :=
-  MS m' st' /\ exists code, txt st' = txt st ++ code /\ denotes m m' code segs.
+  MS m' st' /\ exists code, txt st' = txt st ++ code /\ denotes ind m m' code segs.
 
 Lemma Run_refl m st : MS m st -> Run m st m st [].
 Proof. intro H. split; [exact H|]. exists []. split; [rewrite app_nil_r; reflexivity|constructor]. Qed.
@@ -75,13 +87,13 @@ Proof.
     exists p. split; [unfold txt; cbn [fst w_out rev]; rewrite concat_app; cbn; rewrite app_nil_r; reflexivity|].
     rewrite <- (app_nil_r p). apply d_lit; [exact Hr|constructor].
   - unfold wr, write, w_write, set_local. cbn [fst snd w_err]. split; [split; reflexivity|].
-    exists (opener ++ p). split.
+    exists (opener ind ++ p). split.
     + unfold txt, opener. cbn [fst w_out rev]. rewrite !concat_app. cbn [List.concat]. rewrite !app_nil_r, <- !app_assoc. reflexivity.
     + apply d_open. rewrite <- (app_nil_r p). apply d_lit; [exact Hr|constructor].
 Qed.
 
 (** static content written while a literal is open *)
-Lemma step_run st st' h : LS Lo st -> LS Lo st' -> Step st st' h -> Run true st true st' [SLit h].
+Lemma step_run st st' h : LS (Lo ind) st -> LS (Lo ind) st' -> Step st st' h -> Run true st true st' [SLit h].
 Proof.
   intros _ L' (p & T & R). split; [exact L'|]. exists p. split; [exact T|]. rewrite <- (app_nil_r p). apply d_lit; [exact R|constructor].
 Qed.
@@ -139,27 +151,60 @@ Qed.
 Lemma dyn_run m sm t st : MS m st -> Run m st false (emit_dynamic sm t st) [SDyn t].
 Proof.
   intros [He Hl].
-  assert (Hclosed : forall s, w_err (fst s) = None -> snd s = Lc -> Run false s false (emit_dynamic sm t s) [SDyn t]).
+  assert (Hclosed : forall s, w_err (fst s) = None -> snd s = Lc ind -> Run false s false (emit_dynamic sm t s) [SDyn t]).
   { intros s Hes Hls. assert (Q : quiet s) by (split; [exact Hes|rewrite Hls; reflexivity]).
     destruct (emit_dynamic_quiet sm t s Q) as [[Qe _] Ql]. split; [split; [exact Qe|rewrite Ql; exact Hls]|].
-    exists (dyn_code (lit "__var" ++ itoa (N.of_nat (S (w_num (fst s))))) t). split.
+    exists (dyn_code ind (lit "__var" ++ itoa (N.of_nat (S (w_num (fst s))))) t). split.
     - rewrite (dynamic_text_code sm t s Q). cbv zeta. rewrite Hls. cbn [Lc wl_indent wl_unesc]. unfold dyn_code. rewrite <- !app_assoc. reflexivity.
-    - rewrite <- (app_nil_r (dyn_code _ t)). apply d_dyn. constructor. }
+    - rewrite <- (app_nil_r (dyn_code ind _ t)). apply d_dyn. constructor. }
   destruct m.
   - assert (Hs : wl_static (snd st) = true) by (rewrite Hl; reflexivity).
     rewrite (emit_dynamic_from_open sm t st Hs).
     destruct (close_string_literal_txt st He) as ([Ec Sc] & Ic & Uc & Tc).
-    assert (Lcl : snd (close_string_literal st) = Lc).
+    assert (Lcl : snd (close_string_literal st) = Lc ind).
     { clear - Hl He. destruct st as [[o n l c a e] loc]. cbn [fst snd w_err] in *. subst e loc.
       unfold close_string_literal, add_err_handler, wr, write, w_write, set_local. cbn. reflexivity. }
     destruct (Hclosed _ Ec Lcl) as [M (code & T & D)]. split; [exact M|].
-    exists (close_text Lo ++ code). split; [rewrite T, Tc, Hl, <- app_assoc; reflexivity|]. apply d_close. exact D.
+    exists (close_text (Lo ind) ++ code). split; [rewrite T, Tc, Hl, <- app_assoc; reflexivity|]. apply d_close. exact D.
   - apply Hclosed; assumption.
+Qed.
+
+Lemma close_from_open st : MS true st ->
+  MS false (close_string_literal st) /\ txt (close_string_literal st) = txt st ++ close_text (Lo ind).
+Proof.
+  intros [He Hl]. destruct (close_string_literal_txt st He) as ([Ec _] & _ & _ & Tc). rewrite Hl in Tc. split; [|exact Tc].
+  split; [exact Ec|]. clear - Hl He. destruct st as [[o n l c a e] loc]. cbn [fst snd w_err] in *. subst e loc.
+  unfold close_string_literal, add_err_handler, wr, write, w_write, set_local. cbn. reflexivity.
+Qed.
+
+(** an indented line of Go code, in either mode: closes the literal when one is open *)
+Lemma tw_wri_run m x st : MS m st ->
+  MS false (tw_wri x st) /\ txt (tw_wri x st) = txt st ++ (if m then close_text (Lo ind) else []) ++ tabs ind ++ x.
+Proof.
+  intro H.
+  assert (Hc : forall s, MS false s -> MS false (tw_wri x s) /\ txt (tw_wri x s) = txt s ++ tabs ind ++ x).
+  { intros s [He Hl]. assert (Q : quiet s) by (split; [exact He|rewrite Hl; reflexivity]).
+    destruct (tw_wri_quiet x s Q) as [[E1 _] L1]. split; [split; [exact E1|rewrite L1; exact Hl]|].
+    rewrite tw_wri_txt by exact Q. rewrite Hl. reflexivity. }
+  destruct m.
+  - destruct (close_from_open st H) as [Mc Tc].
+    assert (E : tw_wri x st = tw_wri x (close_string_literal st)).
+    { unfold tw_wri, tw_write_indent, close_if_static. destruct H as [_ Hl]. rewrite Hl, close_static_false. reflexivity. }
+    rewrite E. destruct (Hc _ Mc) as [M T]. split; [exact M|]. rewrite T, Tc, <- app_assoc. reflexivity.
+  - destruct (Hc _ H) as [M T]. split; [exact M|]. rewrite T. reflexivity.
 Qed.
 End Seg.
 
-(** * the fragment: static trees plus interpolation and scripts *)
+(** * the fragment: static trees, interpolation, scripts, and simple `-` blocks (if / for / switch without else) *)
 Definition dyn_text (o : token) : Prop := static_text o \/ toktype_eqb (t_typ o) TDynamicText = true.
+
+(** a `-` line that opens a block which the emitter closes itself: an opening statement written without braces,
+    not an `else`, not starting with a closing brace *)
+Definition block_stmt (o : token) : Prop :=
+  let code := go_trim_space (t_lit o) in
+  any_prefix c_openingStatements code = true /\ has_suffix (lit "{") code = false /\
+  has_prefix (lit "}") code = false /\
+  has_prefix (lit "}") (t_lit o) = false /\ any_prefix c_elseStatements (t_lit o) = false.
 
 Fixpoint dyn_node (n : node) : Prop :=
   match n with
@@ -172,6 +217,7 @@ Fixpoint dyn_node (n : node) : Prop :=
     | KNewLine _ => True
     | KDoctype _ => True
     | KComment o _ => t_lit o <> [] /\ bytes_ok (t_lit o)
+    | KSilent o _ _ => block_stmt o /\ ch <> [] /\ all ch
     | _ => False
     end
   end.
@@ -194,6 +240,7 @@ Fixpoint segs_of (n : node) : list seg :=
     | KNewLine _ => [SLit [10]]
     | KDoctype _ => [SLit (lit "<!DOCTYPE html>")]
     | KComment o _ => [SLit (lit "<!--" ++ html_escape (t_lit o) ++ lit "-->" ++ [10])]
+    | KSilent o _ _ => [SBlock (go_trim_space (t_lit o)) (kids ch)]
     | _ => []
     end
   end.
@@ -206,27 +253,39 @@ Proof. induction l as [|c r IH]; [reflexivity|]. unfold segs_list. cbn [map List
 Lemma dyn_all_eq l : (fix all (l : list node) : Prop := match l with [] => True | c :: r => dyn_node c /\ all r end) l <-> Forall dyn_node l.
 Proof. induction l as [|c r IH]; [split; constructor|]. split; [intros [H1 H2]; constructor; [exact H1|apply IH; exact H2]|intro H; inversion H; split; [assumption|apply IH; assumption]]. Qed.
 
-Section SegNodes.
-Variable ind : nat.
-Notation MSi := (MS ind).
-Notation Runi := (Run ind).
+(** the node that follows does not take over or close the block *)
+Definition next_ok (next : option node) : Prop :=
+  match is_silent next with
+  | Some c => has_prefix (lit "}") c = false /\ any_prefix c_elseStatements c = false
+  | None => True
+  end.
+
+Lemma next_ok_dyn n : dyn_node n -> next_ok (Some n).
+Proof.
+  destruct n as [k ch]. unfold next_ok. cbn [is_silent dyn_node]. destruct k; try (intros; exact I).
+  intros [(_ & _ & _ & H1 & H2) _]. split; assumption.
+Qed.
+
+Lemma next_ok_hd rest : Forall dyn_node rest -> next_ok (hd_error rest).
+Proof. intro H. destruct rest as [|n r]; [exact I|]. inversion H; subst. apply next_ok_dyn. assumption. Qed.
 
 Definition node_run_at (n : node) : Prop :=
-  dyn_node n -> forall sm next nc m st, MSi m st ->
-  exists m', Runi m st m' (fst (emit_node sm n next nc st)) (segs_of n) /\ snd (emit_node sm n next nc st) = false.
+  dyn_node n -> forall ind sm next m st, next_ok next -> MS ind m st ->
+  exists m', Run ind m st m' (fst (emit_node sm n next false st)) (segs_of n) /\ snd (emit_node sm n next false st) = false.
 
-Lemma list_run sm (l : list node) : Forall node_run_at l -> Forall dyn_node l -> forall nc m st, MSi m st ->
-  exists m', Runi m st m' (emit_list sm l nc st) (segs_list l).
+Lemma list_run sm (l : list node) : Forall node_run_at l -> Forall dyn_node l -> forall ind m st, MS ind m st ->
+  exists m', Run ind m st m' (emit_list sm l false st) (segs_list l).
 Proof.
-  induction 1 as [|c rest Hc _ IH]; intros Hs nc m st H; [exists m; apply Run_refl; exact H|].
-  inversion Hs as [|? ? Hsc Hsr]; subst. cbn [emit_list]. destruct (Hc Hsc sm (hd_error rest) nc m st H) as (m1 & R1 & F1).
-  destruct (emit_node sm c (hd_error rest) nc st) as [s1 f1]. cbn [fst snd] in *.
-  destruct (IH Hsr f1 m1 s1 (proj1 R1)) as (m2 & R2). exists m2. unfold segs_list. cbn [map List.concat]. eapply Run_trans; eassumption.
+  induction 1 as [|c rest Hc _ IH]; intros Hs ind m st H; [exists m; apply Run_refl; exact H|].
+  inversion Hs as [|? ? Hsc Hsr]; subst. cbn [emit_list].
+  destruct (Hc Hsc ind sm (hd_error rest) m st (next_ok_hd rest Hsr) H) as (m1 & R1 & F1).
+  destruct (emit_node sm c (hd_error rest) false st) as [s1 f1]. cbn [fst snd] in *. subst f1.
+  destruct (IH Hsr ind m1 s1 (proj1 R1)) as (m2 & R2). exists m2. unfold segs_list. cbn [map List.concat]. eapply Run_trans; eassumption.
 Qed.
 
 Theorem dyn_node_runs n : node_run_at n.
 Proof.
-  induction n as [k ch IH] using node_ind2. intros Hs sm next nc m st H.
+  induction n as [k ch IH] using node_ind2. intros Hs ind sm next m st Hnext H.
   rewrite emit_node_unfold. cbn [dyn_node] in Hs. cbn [segs_of]. rewrite segs_kids_eq.
   destruct k; try contradiction; unfold emit_node_body; cbv zeta.
   - (* doctype *)
@@ -244,13 +303,13 @@ Proof.
     assert (Rgt : reads_as (lit ">") (lit ">")) by (apply reads_as_plain; repeat constructor; cbn; try lia; discriminate).
     pose proof (chunk_run ind true _ _ st2 L2 Rgt) as R3.
     set (st4 := tw_write_string_literal (lit ">") st2) in *.
-    assert (R4 : Runi m st true st4 [SLit (lit "<" ++ e_tag d); SLit (attrs_html d); SLit (lit ">")]).
+    assert (R4 : Run ind m st true st4 [SLit (lit "<" ++ e_tag d); SLit (attrs_html d); SLit (lit ">")]).
     { change [SLit (lit "<" ++ e_tag d); SLit (attrs_html d); SLit (lit ">")] with ([SLit (lit "<" ++ e_tag d)] ++ [SLit (attrs_html d)] ++ [SLit (lit ">")]).
       eapply Run_trans; [exact R1|]. eapply Run_trans; [exact R2|exact R3]. }
     destruct (e_selfclosing d); cbn [fst snd].
     + exists true. rewrite app_nil_r. split; [exact R4|reflexivity].
     + fold (only_newline ch).
-      assert (H6 : exists m6, Runi true st4 m6 (if only_newline ch then st4 else emit_list sm ch false st4) (if only_newline ch then [] else segs_list ch)).
+      assert (H6 : exists m6, Run ind true st4 m6 (if only_newline ch then st4 else emit_list sm ch false st4) (if only_newline ch then [] else segs_list ch)).
       { destruct (only_newline ch); [exists true; apply Run_refl; exact (proj1 R4)|]. apply list_run; [assumption|assumption|exact (proj1 R4)]. }
       destruct H6 as (m6 & R6). set (st6 := if only_newline ch then st4 else emit_list sm ch false st4) in *.
       pose proof (chunk_run ind m6 _ _ st6 (proj1 R6) Rtc) as R8.
@@ -273,10 +332,45 @@ Proof.
       * apply chunk_run; [exact H|]. apply reads_as_quote. exact Hok.
       * destruct (chunk_text_escaped_ok (t_lit origin) Hok) as [R _]. apply chunk_run; assumption.
     + rewrite Hdyn. exists false. split; [apply dyn_run; exact H|reflexivity].
+  - (* a `-` block *)
+    destruct Hs as [(Hop & Hsuf & Hpre & _ & _) [Hne Hch]]. apply dyn_all_eq in Hch.
+    rewrite Hop, Hsuf, Hpre. cbn [andb negb].
+    destruct ch as [|c0 ch0]; [congruence|]. cbn [andb negb].
+    set (code := go_trim_space (t_lit origin)) in *.
+    destruct (tw_wri_run ind m [] st H) as [M1 T1].
+    set (st1 := tw_wri [] st) in *.
+    assert (Q1 : quiet st1) by (destruct M1 as [A B]; split; [exact A|rewrite B; reflexivity]).
+    destruct (tw_write_add_quiet sm code origin st1 Q1) as [Q3 L3]. pose proof (tw_write_add_txt sm code origin st1 Q1) as T3.
+    set (st3 := tw_write_add sm code origin st1) in *.
+    destruct (tw_wr_quiet (lit " {" ++ [10]) st3 Q3) as [Q4 L4]. pose proof (tw_wr_txt (lit " {" ++ [10]) st3 Q3) as T4.
+    set (st4 := tw_wr (lit " {" ++ [10]) st3) in *.
+    assert (E4 : snd st4 = Lc ind) by (rewrite L4, L3; exact (proj2 M1)).
+    assert (Mb : MS (S ind) false (set_local st4 (indent_local (snd st4) 1))).
+    { split; [exact (proj1 Q4)|]. cbn [set_local snd]. rewrite E4. unfold indent_local, Lc, loc_of. cbn [wl_indent wl_static wl_errh wl_unesc]. rewrite Nat.add_1_r. reflexivity. }
+    destruct (list_run sm (c0 :: ch0) IH Hch (S ind) false _ Mb) as (mb & [E5 L5] & body_code & T5 & D5).
+    rewrite txt_set_local in T5.
+    set (st5 := emit_list sm (c0 :: ch0) false (set_local st4 (indent_local (snd st4) 1))) in *.
+    assert (Hclose : w_err (fst (tw_close st5)) = None /\ txt (tw_close st5) = txt st5 ++ (if mb then close_text (Lo (S ind)) else [])).
+    { unfold tw_close, close_if_static. rewrite L5. destruct mb; cbn [loc_of Lo Lc wl_static].
+      - destruct (close_string_literal_txt st5 E5) as ([Ec _] & _ & _ & Tc). rewrite L5 in Tc. split; [exact Ec|exact Tc].
+      - split; [exact E5|rewrite app_nil_r; reflexivity]. }
+    destruct Hclose as [E6 T6].
+    set (st6 := set_local (tw_close st5) (snd st4)).
+    assert (M6 : MS ind false st6) by (split; [exact E6|exact E4]).
+    destruct (tw_wri_run ind false (lit "}" ++ [10]) st6 M6) as [M7 T7].
+    assert (Hfinal : Run ind m st false (tw_wri (lit "}" ++ [10]) st6) [SBlock code (segs_list (c0 :: ch0))]).
+    { split; [exact M7|].
+      exists ((if m then close_text (Lo ind) else []) ++ block_code ind code body_code mb). split.
+      - rewrite T7. unfold st6. rewrite txt_set_local, T6, T5, T4, T3, T1. unfold block_code. cbn [app]. rewrite <- !app_assoc. reflexivity.
+      - assert (Db : denotes ind false false (block_code ind code body_code mb) [SBlock code (segs_list (c0 :: ch0))]).
+        { rewrite <- (app_nil_r (block_code _ _ _ _)). apply d_block; [exact D5|constructor]. }
+        destruct m; [apply d_close; exact Db|exact Db]. }
+    exists false. unfold next_ok in Hnext. destruct (is_silent next) as [nc0|].
+    + destruct Hnext as [Hn1 Hn2]. rewrite Hn1, Hn2. cbn [andb negb fst snd]. split; [exact Hfinal|reflexivity].
+    + cbn [fst snd]. split; [exact Hfinal|reflexivity].
   - (* script *)
     cbn [fst snd]. exists false. split; [apply dyn_run; exact H|reflexivity].
 Qed.
-End SegNodes.
 
 (** * a whole template with a body of this fragment *)
 Theorem dyn_template_code o body :
@@ -300,8 +394,8 @@ Proof.
   generalize dependent (tw_wr c_gohtEntry s2). intros st4 Q3 L3 T3. clear s0 Q0 E0 T0 s1 Q1 L1 T1 s2 Q2 L2 T2.
   assert (Hb : MS 2 false (set_local st4 (indent_local (snd st4) 2))).
   { split; [exact (proj1 Q3)|]. cbn [set_local snd]. rewrite L3. reflexivity. }
-  assert (Hn : Forall (node_run_at 2) body) by (apply Forall_forall; intros n _; apply dyn_node_runs).
-  destruct (list_run 2 false body Hn Hall false false _ Hb) as (m' & [E5 L5] & code & T5 & D5).
+  assert (Hn : Forall node_run_at body) by (apply Forall_forall; intros n _; apply dyn_node_runs).
+  destruct (list_run false body Hn Hall 2%nat false _ Hb) as (m' & [E5 L5] & code & T5 & D5).
   rewrite txt_set_local in T5.
   generalize dependent (emit_list false body false (set_local st4 (indent_local (snd st4) 2))). intros st5 E5 L5 T5.
   exists m', code. split; [exact D5|].
